@@ -8,5 +8,5 @@ MCShapes == JsonDeserialize(IOEnv.VERIF_SHAPES)
 MCProps == {"C06"}
 MCScript == <<"SetPrior", "LoadRaw", "CopyTo">>
 ASSUME PrintT("SHAPES " \o ToJson(MCShapes))
-INSTANCE Session WITH Shapes <- MCShapes, Script <- MCScript, Deep <- MCDeep, Props <- MCProps, ObjMode <- "all", RawMode <- "reduced"
+INSTANCE Session WITH Shapes <- MCShapes, Script <- MCScript, Deep <- MCDeep, Props <- MCProps, ObjMode <- "all", RawMode <- "reduced", EmptyMode <- "plain"
 ====
